@@ -361,6 +361,13 @@ class VersionAdvance(Oracle):
         if st["op"] in ("commit", "upgrade") and oid:
             self.head = self.main_head(ctx, oid)
             self.main = snapshot(os.path.join(ctx.dir, "root"), exclude=("extensions/rocfl-staging",))
+            # the logical states of every committed version, as the repository answers them now
+            self.earlier = {}
+            m = re.match(r"v0*(\d+)$", self.head[0])
+            for k in range(1, (int(m.group(1)) if m else 0) + 1):
+                r = ctx.live.ask("ver %s v%d" % (hx(oid), k))
+                if r.startswith("ok "):
+                    self.earlier[k] = {p: v[0] for p, v in json.loads(r[3:])["state"].items()}
 
     def after(self, ctx, st, resp):
         if self.head is None:
@@ -380,6 +387,13 @@ class VersionAdvance(Oracle):
                 fails.append("the committed head %s is not the staged version %s" % (after_main, before_staged))
             if after_main.startswith("v0") and not after_main[1:].startswith("0"):
                 fails.append("padded version lost its leading zero: %s" % after_main)
+            # no committed version is overwritten or silently merged: every earlier version still answers the same state
+            for k, state in getattr(self, "earlier", {}).items():
+                r = ctx.live.ask("ver %s v%d" % (hx(oid), k))
+                now = {p: v[0] for p, v in json.loads(r[3:])["state"].items()} if r.startswith("ok ") else r.split(" ")[0]
+                if now != state:
+                    fails.append("after the commit version v%d of the object no longer has the state it had before" % k)
+                    break
         else:
             if after_main != before_main:
                 fails.append("commit failed (%s) but the head moved from %s to %s" % (resp.split(" ")[0], before_main, after_main))
